@@ -729,6 +729,26 @@ pub struct ReadEntry {
 pub type LazyEntry = <jbk::reader::builder::AnyBuilder as jbk::reader::builder::BuilderTrait>::Entry;
 
 pub fn raw_to_val(r: &jbk::reader::RawValue) -> Result<Val, String> {
+    let v = raw_to_val_inner(r)?;
+    // the other views of the same raw value agree with it: the owned `get()` conversion and the typed accessors
+    let owned = r.get().map_err(|e| format!("RawValue::get: {e}"))?;
+    let same = match (&v, &owned) {
+        (Val::U(a), jbk::Value::Unsigned(b)) => a == b && r.as_unsigned() == *a,
+        (Val::S(a), jbk::Value::Signed(b)) => a == b && r.as_signed() == *a,
+        (Val::A(a), jbk::Value::Array(b)) => a.as_slice() == &b[..],
+        (Val::C(p, c), jbk::Value::Content(b)) => {
+            let t = r.as_content();
+            b.pack_id.into_u16() == *p && b.content_id.into_u32() == *c && t.pack_id.into_u16() == *p && t.content_id.into_u32() == *c
+        }
+        _ => false,
+    };
+    if !same {
+        return Err(format!("RawValue::get()/as_*() give {owned:?} where the raw value is {}", v.brief()));
+    }
+    Ok(v)
+}
+
+fn raw_to_val_inner(r: &jbk::reader::RawValue) -> Result<Val, String> {
     use jbk::reader::RawValue as R;
     Ok(match r {
         R::Content(c) => Val::C(c.pack_id.into_u16(), c.content_id.into_u32()),
